@@ -191,3 +191,17 @@ Example real_file :
   /\ length (report_file version_h_misindented) = 4%nat
   /\ fix_file version_h_misindented = version_h.
 Proof. vm_compute. repeat split; reflexivity. Qed.
+
+(* non-vacuity of the remaining premises: the own header of Logging.cpp is among its (fixed) includes (propose_puts_own_header_first);
+   line 4 of the mis-indented file carries no recorded fix and is left alone, line 3 carries one and is changed
+   (fix_touches_only_fixes, k = 3 / 2) *)
+Example premises_nonvacuous :
+  match own_pattern (own_path_of logging_cpp_path) with
+  | Some own => In (of_string """Logging.h""") (map (fix_relative own) logging_cpp_includes)
+  | None => False
+  end
+  /\ forallb (fun f => negb (flineno f =? fi_first_lineno + Z.of_nat 3)%Z) (parse_fixes version_h_misindented) = true
+  /\ nth_error (fix_indents (parse_fixes version_h_misindented) version_h_misindented) 3 = nth_error version_h_misindented 3
+  /\ nth_error (fix_indents (parse_fixes version_h_misindented) version_h_misindented) 2 <> nth_error version_h_misindented 2.
+Proof. vm_compute. repeat split; try reflexivity; [left; reflexivity|discriminate]. Qed.
+Print Assumptions premises_nonvacuous.
